@@ -308,7 +308,7 @@ def per_path(ctx, po, sh):
             text = po.spec.text(ev)
             nat = ctx.replay.run(text)
             if nat['status'] == 'ok' and expander.flat_text(nat['out']) == expander.flat(po.tokens):
-                cat = 'unbound-binding' if 'on the right but binds only' in why[1] else ('payload' if ' payload ' in why[1] else ('bindings' if ' binds ' in why[1] else ('pattern' if 'arm pattern' in why[1] else ('constructor' if 'constructs' in why[1] else 'other'))))
+                cat = ('unbound-binding' if re.search(r'uses `f\d+` on the right', why[1]) else 'unbound-named-binding') if 'on the right but binds only' in why[1] else ('payload' if ' payload ' in why[1] else ('bindings' if ' binds ' in why[1] else ('pattern' if 'arm pattern' in why[1] else ('constructor' if 'constructs' in why[1] else 'other'))))
                 cls = '%s/%s' % (why[0], cat) if why[0] != 'default-case-dropped' else 'default-case-dropped/from-without-literal-pattern-ghosts'
                 ctx.violation('enum-arms', cls, why[1], {'input': text, 'output': nat['out'][:2000]})
             else:
